@@ -173,6 +173,7 @@ type loopInfo struct {
 	ord     int
 	modSet  map[string]bool
 	frameKeys []string
+	framePre  *State
 }
 
 func (vc *VC) errf(format string, a ...interface{}) {
